@@ -158,7 +158,7 @@ pub fn run(args: &Args) {
     // EVR tuples: exhaustive over a small component domain (incl. '-' and ':' inside fields, which
     // Evr::new accepts) through Ord, PartialEq and - where the text form is unambiguous - the string API
     let epochs = ["", "0", "1", "01", "10", "a"];
-    let versions = ["1", "1.0", "a", "1~", "1^", "1-1", "1.a", ""];
+    let versions = ["1", "1.0", "1.00", "1_0", "a", "1~", "1^", "1-1", "1.a", ""];
     let releases = ["", "1", "1.a", "1-1", "2"];
     let mut tuples = vec![];
     for e in epochs {
@@ -180,7 +180,10 @@ pub fn run(args: &Args) {
             let ey = Evr::new(y.0, y.1, y.2);
             let ord = guarded(|| ord_i(ex.cmp(&ey)));
             let eq = guarded(|| ex == ey);
-            let mut ev = json!({"event":"EvrRow",
+            // the same order through the other public doors: PartialOrd and the comparison operators (9 = incomparable)
+            let pord = guarded(|| ex.partial_cmp(&ey).map(ord_i).unwrap_or(9)).unwrap_or(8);
+            let (le, ge) = (guarded(|| ex <= ey).unwrap_or(false), guarded(|| ex >= ey).unwrap_or(false));
+            let mut ev = json!({"event":"EvrRow","pord":pord,"le":le,"ge":ge,
                 "x":{"e":codes(x.0),"v":codes(x.1),"r":codes(x.2)},
                 "y":{"e":codes(y.0),"v":codes(y.1),"r":codes(y.2)}});
             match (ord, eq) {
@@ -219,7 +222,9 @@ pub fn run(args: &Args) {
             let ny = Nevra::new(y.0, y.1, y.2, y.3, y.4);
             let ord = guarded(|| ord_i(nx.cmp(&ny)));
             let eq = guarded(|| nx == ny);
-            let mut ev = json!({"event":"NevraRow",
+            let pord = guarded(|| nx.partial_cmp(&ny).map(ord_i).unwrap_or(9)).unwrap_or(8);
+            let (le, ge) = (guarded(|| nx <= ny).unwrap_or(false), guarded(|| nx >= ny).unwrap_or(false));
+            let mut ev = json!({"event":"NevraRow","pord":pord,"le":le,"ge":ge,
                 "x":{"n":codes(x.0),"e":codes(x.1),"v":codes(x.2),"r":codes(x.3),"a":codes(x.4)},
                 "y":{"n":codes(y.0),"e":codes(y.1),"v":codes(y.2),"r":codes(y.3),"a":codes(y.4)}});
             match (ord, eq) {
